@@ -2,7 +2,7 @@
 import io
 import os
 
-from core import hx, opt, b01, exc_kind
+from core import hx, opt, b01, exc_kind, safe_check
 import dbutil
 from cliutil import run_cli
 
@@ -243,7 +243,7 @@ def run(ctx):
 	global _world
 
 	def sub(case, tag):
-		lines, pf = check(ctx, case)
+		lines, pf = safe_check(check, ctx, case)
 		nt = case.pop('_nt', False)
 		ctx.submit(case, lines, nontrivial=bool(nt), tags=[tag, f'{case.get("q")}x{case.get("r")}'], pyfails=pf)
 
